@@ -77,8 +77,16 @@ def translators(prop):
     return ok, log
 
 
-ALL_TRANSLATORS = []
-TRANSLATORS_FOR: dict[str, list[str]] = {}
+ALL_TRANSLATORS = ["tr_rules"]
+TRANSLATORS_FOR: dict[str, list[str]] = {"C19": ["tr_rules"]}
+
+# what `make` must build for a property: only its own closure, so that a broken
+# obligation of one property never raises an alarm for another
+KERNEL = ["theories/KernelProps.vo", "theories/Enc.vo", "theories/Num.vo"]
+PROP_TARGETS: dict[str, list[str]] = {
+    "C03": KERNEL, "C05": KERNEL, "C07": KERNEL, "C08": KERNEL,
+    "C19": KERNEL + ["theories/RuleIds.vo", "gen/Rules.vo"],
+}
 
 
 def compile_props(prop):
@@ -109,7 +117,7 @@ def run_gate(prop, v):
     if not tok:
         g["ok"] = False
         g["broken"].append("translator: " + "; ".join(t for t in tlog if "FAILED" in t))
-    ok, log = common.ensure_theories()
+    ok, log = common.ensure_theories(PROP_TARGETS.get(prop, KERNEL))
     if not ok:
         g["ok"] = False
         m = re.findall(r'File "([^"]+)", line (\d+)', log)
